@@ -536,9 +536,16 @@ func (c *Compiler) applyUsesToNode(mod, nod, use parse.Node, parentStatus schema
 	// descendant (not grandchild) we must apply them here.  If we pass
 	// them back to expandGroupings they will be ignored as that function
 	// only deals with 'uses' on child nodes of the node passed in.
+	//
+	// Such a uses is a reference made by the grouping, whatever the
+	// status of the place the grouping is used from.
+	var groupStatus schema.Status = schema.Current
+	if st := group.ChildByType(parse.NodeStatus); st != nil {
+		groupStatus = parseStatus(st)
+	}
 	for _, kid := range group.Children() {
 		if kid.Type() == parse.NodeUses {
-			if err := c.applyUsesToNode(gmod, group, kid, parentStatus); err != nil {
+			if err := c.applyUsesToNode(gmod, group, kid, groupStatus); err != nil {
 				return err
 			}
 		}
